@@ -251,6 +251,7 @@ func checkC08(p *core.Program, r *core.Report) {
 	r.Rule("O8.1", "preimage = fixed-width positional layout in the circuit's packing order (BE32 indices, 32-byte big integers)")
 	r.Rule("O8.2", "legacy Keccak-256; digest stored with SetBytes into the public-input parameter field")
 	r.Rule("O8.4", "imported verdicts: off-chain tree discipline (C18) and Poseidon shape (C05)")
+	r.Rule("O8.6", "the hash helpers construct no error under a condition on the parameter values")
 	r.Rule("O8.5", "a big.Int copied by value out of a pointer is not followed by a mutating method on the same object (generator, parameter code, off-chain tree)")
 	r.Rule("O8.3", "gen-test-params: all fields set before the helper, none between helper and json.Marshal of the same struct")
 	r.Trusted = append(r.Trusted, "iden3 keccak256.Hash is Keccak-256", "math/big Bytes/FillBytes/SetBytes are big-endian", "encoding/binary.Write writes uint32 and []uint32 as 4 bytes each in the given order", "values are below 2^256 (the pad-if-short idiom does not truncate)")
@@ -382,6 +383,13 @@ func checkC08(p *core.Program, r *core.Report) {
 	r.Floor("layout parts", 6)
 	// O8.3
 	checkGenTestParams(p, r, helpers)
+	// O8.6: "for every parameter set whose values are in range … whatever the magnitude": the helpers refuse nothing on
+	// the strength of a value (a sign or size test that also excludes zero leaves InputHash unset for an in-range set)
+	for _, h := range helpers {
+		if h.Fn != nil && fnReturnsError(h.Fn) {
+			checkRefusals(p, r, "O8.6", h.Fn)
+		}
+	}
 	// O8.4: "parameters emitted by the generator are provable" also rests on the generator's tree and on Poseidon
 	// O8.5: the generator and the parameter code copy big.Int values out of pointers; no copy is invalidated afterwards
 	checkBigIntAliasing(p, r, "O8.5", func(path string) bool {
